@@ -4,6 +4,7 @@ import ExponaxModel.Proofs.LayoutLemmas
 import ExponaxModel.Proofs.DFT
 import ExponaxModel.Proofs.InterpExact
 import ExponaxModel.Proofs.InterpQuery
+import ExponaxModel.Proofs.SpectralOpsEq
 /-
 C15 — Fourier interpolation and resolution changes.
 Index part of `map_between_resolutions`: the block copy preserves wavenumbers (all parity
@@ -161,5 +162,22 @@ theorem C15_fails_at_nyquist :
     Interp.interpolate 1 2 ((1 : ℝ) : ℂ) (ExactLinear.modeField 1 2 [1] 1 (Real.pi / 2)) (Interp.cx [Real.pi / 2]) ≠
       ((1 * Real.cos (∑ d ∈ Finset.range 1, 1 * (([1] : List ℤ).getD d 0 : ℤ) * ([Real.pi / 2] : List ℝ).getD d 0
         + Real.pi / 2) : ℝ) : ℂ) := Interp.U1_fails_at_nyquist
+
+/-! ### the interpolation code itself (`map_between_resolutions`, `FourierInterpolator`), regenerated from
+`_interpolation.py` on every run, is the model the theorems above are about -/
+open Exponax.SpectralOpsEq in
+theorem C15_generated_map_between (D N Nnew C : ℕ) (hD : 1 ≤ D) (hN : 0 < N) (hNn : 0 < Nnew) (ob : Bool)
+    (state : Nonlin.MC ℂ) :
+    (N ≠ Nnew → Gen.SpectralOps.map_between_resolutions D N C Nnew ob state =
+        Nonlin.tabC C (fun ch => Interp.mapBetween D N Nnew ob (state.getD ch #[]))) ∧
+      Gen.SpectralOps.map_between_resolutions D N C N ob state = state :=
+  ⟨fun h => map_between_resolutions_eq D N Nnew C h hD hN hNn ob state, map_between_resolutions_same D N C ob state⟩
+
+open Exponax.SpectralOpsEq in
+theorem C15_generated_interpolator (D N C : ℕ) (hD : 1 ≤ D) (hN : 0 < N) (L : ℂ) (state : Nonlin.MC ℂ) (x : List ℂ) :
+    Gen.SpectralOps.FourierInterpolator_call D N C L "ij" state x =
+      Transform.tab C (fun ch => Interp.interpolate D N (2 * Real.pi / L) (state.getD ch #[]) x) :=
+  FourierInterpolator_call_eq D N C hD hN L state x
+
 
 end Exponax
